@@ -239,8 +239,37 @@ func (s *Server) DidClose(ctx context.Context, params *protocol.DidCloseTextDocu
 			}
 		}
 		s.loader.InvalidateFile(path)
+		s.reanalyseIncluders(ctx, path, params.TextDocument.URI)
 	}
 	return nil
+}
+
+// reanalyseIncluders starts a new analysis of every open document whose
+// recorded include tree contains the file: its content on disk changed (saved)
+// or its editor text no longer counts (closed), so the recorded trees are stale.
+func (s *Server) reanalyseIncluders(ctx context.Context, path string, except protocol.DocumentURI) {
+	s.resolved.Range(func(key, value any) bool {
+		docURI, ok := key.(protocol.DocumentURI)
+		resolved, isTree := value.(*include.ResolvedJournal)
+		if !ok || !isTree || resolved == nil || docURI == except {
+			return true
+		}
+		if _, included := resolved.Files[path]; !included {
+			return true
+		}
+		s.docMu.Lock()
+		content, open := s.GetDocument(docURI)
+		var version uint64
+		if open {
+			s.resolved.Delete(docURI)
+			version = s.nextDocVersionLocked(docURI)
+		}
+		s.docMu.Unlock()
+		if open {
+			go s.publishDiagnosticsVersion(ctx, docURI, content, version)
+		}
+		return true
+	})
 }
 
 func (s *Server) DidSave(ctx context.Context, params *protocol.DidSaveTextDocumentParams) error {
@@ -255,6 +284,7 @@ func (s *Server) DidSave(ctx context.Context, params *protocol.DidSaveTextDocume
 			}
 		}
 		s.loader.InvalidateFile(path)
+		s.reanalyseIncluders(ctx, path, params.TextDocument.URI)
 	}
 	return nil
 }
